@@ -667,12 +667,6 @@ pub proof fn lemma_prefix_covers(gv: Seq<Variable>, vs: Seq<asp::Variable>, r: a
 //@         && forall|i: int| 0 <= i < vals.len() ==> #[trigger] val_ok(vals[i], terms@[i], variables@[i]),
 //@end
 
-/// the head variables V taken from the list of fresh global names
-pub open spec fn globals_ok(globals: Seq<String>, r: asp::Rule) -> bool {
-    &&& head_args(r.head).len() <= globals.len()
-    &&& distinct_names(globals)
-    &&& forall|i: int, k: VKey| 0 <= i < globals.len() && #[trigger] rule_in(r, k) ==> k != #[trigger] zkey(globals[i])
-}
 
 //@fn src/translating/formula_representation/tau_star.rs :: fn tau_star_fo_head_rule
 //@ .ret res
@@ -754,10 +748,6 @@ pub open spec fn globals_ok(globals: Seq<String>, r: asp::Rule) -> bool {
 //@     ensures rule_ok(res, *r),
 //@end
 
-/// the list of head variables serves every rule of the program
-pub open spec fn program_globals_ok(globals: Seq<String>, p: asp::Program) -> bool {
-    forall|i: int| 0 <= i < p.rules@.len() ==> #[trigger] globals_ok(globals, p.rules@[i])
-}
 
 // ASSUMED COMPOSITION of choose_fresh_global_variables: its first and last sections are verified below as the fragments
 // `globals_max_arity` and `globals_numbering` (whose postconditions give this contract by lemma_globals_compose); what is assumed is
@@ -770,10 +760,6 @@ pub open spec fn program_globals_ok(globals: Seq<String>, p: asp::Program) -> bo
 //@     ensures program_globals_ok(r@, *program),
 //@end
 
-/// tau*(P): one sentence per rule, each true exactly when every ground instance of its rule is satisfied
-pub open spec fn theory_ok(t: Theory, p: asp::Program) -> bool {
-    t.formulas@.len() == p.rules@.len() && forall|i: int| 0 <= i < p.rules@.len() ==> #[trigger] rule_ok(t.formulas@[i], p.rules@[i])
-}
 
 //@fn src/translating/formula_representation/tau_star.rs :: fn tau_star
 //@ .ret res
